@@ -695,6 +695,8 @@ def alphabet(tier):
         ('raise1', ('anon', 'raise', 1)),             # update_variable_number(numvar+1)
         ('clause_skip', ('anon', 'clause', 2)),       # add_clause([-(numvar+2)])
         ('raise_same', ('anon', 'raise', 0)),         # update_variable_number(numvar): no-op
+        ('geq_generator', ('anon', 'geq_generator', 1)),   # cardinality_geq(generator of [numvar+1]), 1)
+        ('eq_range', ('anon', 'eq_range', 2)),        # cardinality_eq(range(numvar+1, numvar+3), 1)
     ]
     ops += [
         ('dig_succ', ('group', 'digraph_edges', DIG)),
@@ -751,6 +753,10 @@ def execute(cls, hist, opsd, labels):
                 if spec[1] == 'clause':
                     lit = n + spec[2]
                     F.add_clause([lit if spec[2] == 1 else -lit])
+                elif spec[1] == 'geq_generator':
+                    F.cardinality_geq((x for x in [n + 1]), 1)
+                elif spec[1] == 'eq_range':
+                    F.cardinality_eq(range(n + 1, n + 3), 1)
                 else:
                     F.update_variable_number(n + spec[2])
             else:
